@@ -80,6 +80,10 @@ def cells_main(cfg, lenw="u32", lenspell="inline", target="match", cksw="u32", c
     i16 b,
     string c,
 }
+packet Inner2 {
+    u8 a2,
+    char[3] c2,
+}
 packet Logon {
     u8 x,
     string user,
@@ -93,25 +97,24 @@ packet Empty {
 """
     f = []
     for short, long in SCALARS:
-        f.append("%s s_%s," % (short, short))
-        f.append("%s l_%s," % (long, long))
-    f.append("char[6] fs_plain,")
+        f.append("%s s%s," % (short, short))
+        f.append("%s l%s," % (long, long))
+    f.append("char[6] fsplain,")
     for i, p in enumerate(PADS):
-        f.append("%s char[%d] fs_%d," % (p, 4 + i, i))
+        f.append("%s char[%d] fs%d," % (p, 4 + i, i))
     f.append("zchar[7] fz,")
-    f.append("@leftPad('0') zchar[3] fz_l0,")
+    f.append("@leftPad('0') zchar[3] fzl0,")
     f.append("string s1 `doc`,")
     f.append("char[] s2,")
-    f.append("Inner ref_obj,")
     f.append("Inner,")
     f.append("Sub {\n        u8 q,\n        string w,\n        Deep {\n            u16 z,\n            repeat i32 zs,\n        },\n    },")
     for short, _ in SCALARS:
-        f.append("repeat %s r_%s," % (short, short))
-    f.append("repeat string r_str,")
-    f.append("repeat char[] r_str2,")
-    f.append("repeat char[3] r_fs,")
-    f.append("repeat zchar[3] r_fz,")
-    f.append("repeat Inner r_inner,")
+        f.append("repeat %s r%s," % (short, short))
+    f.append("repeat string rstr,")
+    f.append("repeat char[] rstr2,")
+    f.append("repeat char[3] rfs,")
+    f.append("repeat zchar[3] rfz,")
+    f.append("repeat Inner2,")
     f.append("repeat Grp {\n        u8 k,\n        char[2] v,\n    },")
     f.append("SeqNum,")
     f.append("SeqNum seq2,")
@@ -134,7 +137,7 @@ packet Empty {
         else:
             f.append("match MsgType as Body {\n        1 : Logon,\n        [2, 3] : Logout,\n        7 : Logon,\n        9 : Empty,\n    },")
     else:
-        f.append("Inner Body,")
+        f.append("Body {\n        u8 bb,\n        string bs,\n    },")
     if cksspell == "inline":
         f.append('%s Checksum @calculatedFrom("CRC32"),' % cksw)
     elif cksspell == "prefixed":
@@ -237,3 +240,122 @@ root packet Frame {
     },
 }
 """ % (keyty, keyty, pairs, pairs2)
+
+
+def finding_programs():
+    """Small programs, one per cell in which some generator is known (or suspected) to deviate."""
+    P = []
+
+    def add(name, text):
+        P.append(("fnd-" + name, text))
+    add("char", "root packet P {\n    char c,\n    u8 x,\n}\n")
+    add("rchar", "root packet P {\n    repeat char cs,\n    u8 x,\n}\n")
+    add("objname", "packet Inner {\n    u8 a,\n}\nroot packet P {\n    Inner ref_obj,\n    u8 x,\n}\n")
+    add("objlist", "packet Inner {\n    u8 a,\n}\nroot packet P {\n    repeat Inner items,\n    u8 x,\n}\n")
+    add("lower-inline", "root packet P {\n    hdr {\n        u8 a,\n    },\n    u8 x,\n}\n")
+    for w in ("u8", "u64"):
+        add("len-" + w, "packet B {\n    u8 a,\n}\nroot packet P {\n    u8 K,\n    %s L @lengthOf(Body),\n    match K as Body {\n        1 : B,\n    },\n}\n" % w)
+    add("len-after", "packet B {\n    u8 a,\n}\nroot packet P {\n    u8 K,\n    match K as Body {\n        1 : B,\n    },\n    u16 L @lengthOf(Body),\n}\n")
+    add("len-obj", "packet B {\n    u8 a,\n    string s,\n}\nroot packet P {\n    u16 L @lengthOf(B),\n    B,\n    u8 t,\n}\n")
+    add("len-obj-le", "options {\n    LittleEndian = true;\n}\npacket B {\n    u8 a,\n    string s,\n}\nroot packet P {\n    u16 L @lengthOf(B),\n    B,\n    u8 t,\n}\n")
+    add("barepad", "options {\n    FixedStringPadFromLeft = true;\n}\nroot packet P {\n    char[4] z,\n}\n")
+    add("cks-le", "options {\n    LittleEndian = true;\n}\nroot packet P {\n    u16 a,\n    u32 Sum @calculatedFrom(\"CRC32\"),\n}\n")
+    add("cks-be", "root packet P {\n    u16 a,\n    u32 Sum @calculatedFrom(\"CRC32\"),\n}\n")
+    add("str", "root packet P {\n    string s,\n}\n")
+    add("strlist", "root packet P {\n    repeat string ss,\n    repeat u16 ns,\n}\n")
+    add("underscore", "root packet P {\n    u8 s_u8,\n    repeat u8 r_u8,\n    u16 b_len,\n}\n")
+    add("two-match", "packet A {\n    u8 a,\n}\npacket B {\n    u16 b,\n}\nroot packet P {\n    u8 K1,\n    u8 K2,\n    match K1 as M1 {\n        1 : A,\n    },\n    match K2 as M2 {\n        1 : B,\n    },\n}\n")
+    add("dup-key", "packet A {\n    u8 a,\n}\npacket B {\n    u16 b,\n}\nroot packet P {\n    u8 K,\n    match K as M {\n        1 : A,\n        1 : B,\n    },\n}\n")
+    add("multi-key", "packet A {\n    u8 a,\n}\npacket B {\n    u16 b,\n}\nroot packet P {\n    u8 K,\n    match K as M {\n        [1, 2] : A,\n        3 : B,\n        7 : A,\n    },\n}\n")
+    add("snake-pkt", "packet order_item {\n    u8 a,\n}\nroot packet new_order {\n    order_item,\n    u8 x,\n}\n")
+    add("camel-pkt", "packet orderItem {\n    u8 a,\n}\nroot packet newOrder {\n    orderItem,\n    u8 x,\n}\n")
+    return P
+
+
+IDENTS = ["x", "Qty", "price", "OrderId", "clOrdID", "f1", "Side2", "msgKind", "Flags", "seqNo", "Note", "sym", "Px",
+          "count", "Tail", "lastPx", "Acct", "venue", "Ref", "tag7"]
+PKT_IDENTS = ["Logon", "Logout", "Order", "Cancel", "Fill", "Quote", "Trade", "Heartbeat", "Ack", "Reject", "Leg", "Party"]
+
+
+def random_programs(seed, n):
+    """Grammar-directed random valid programs (mostly inside every generator's working fragment:
+    object fields named after their type, no char scalars)."""
+    rng = random.Random(seed * 7919 + 13)
+    out = []
+    for k in range(n):
+        cfg = dict(le=rng.choice(LE_OPTS), s=rng.choice(PFX_OPTS), l=rng.choice(PFX_OPTS),
+                   padleft=rng.choice([None, None, "false", "true"]), padchar=rng.choice(PADCHAR_OPTS))
+        if cfg["padleft"] == "true" and cfg["padchar"] is None:
+            cfg["padchar"] = "'0'"
+        npk = rng.randint(1, 5)
+        names = rng.sample(PKT_IDENTS, npk + 1)
+        root = names[-1]
+        pkts = []
+        for i, nm in enumerate(names[:-1]):
+            pkts.append("packet %s {\n%s}\n" % (nm, rand_fields(rng, names[:i], 0, False)))
+        body = rand_fields(rng, names[:-1], 0, True)
+        text = options_block(cfg) + "".join(pkts) + "root packet %s {\n%s}\n" % (root, body)
+        out.append(("rnd-%d-%d" % (seed, k), text))
+    return out
+
+
+def rand_fields(rng, earlier, depth, is_root):
+    nf = rng.randint(0 if not is_root else 1, 6)
+    used = set()
+    lines = []
+
+    def ident():
+        for _ in range(50):
+            c = rng.choice(IDENTS)
+            if c not in used:
+                used.add(c)
+                return c
+        c = "g%d" % len(used)
+        used.add(c)
+        return c
+    ind = "    " * (depth + 1)
+    for _ in range(nf):
+        kind = rng.choice(["scalar", "scalar", "fixed", "zfixed", "dyn", "list", "obj", "inline", "listobj"])
+        rep = ""
+        if kind == "scalar":
+            short, long = rng.choice(SCALARS)
+            lines.append("%s%s %s," % (ind, rng.choice([short, long]), ident()))
+        elif kind == "fixed":
+            pad = rng.choice(["", "", "@leftPad('0') ", "@rightPad('0') ", "@leftPad(' ') ", "@rightPad('\\x00') "])
+            if depth > 0:
+                pad = ""        # attributes are not allowed on fields of inline objects
+            lines.append("%s%schar[%d] %s," % (ind, pad, rng.randint(1, 12), ident()))
+        elif kind == "zfixed":
+            lines.append("%szchar[%d] %s," % (ind, rng.randint(1, 9), ident()))
+        elif kind == "dyn":
+            lines.append("%s%s %s," % (ind, rng.choice(["string", "char[]"]), ident()))
+        elif kind == "list":
+            short, _ = rng.choice(SCALARS)
+            what = rng.choice([short, "string", "char[%d]" % rng.randint(1, 6)])
+            lines.append("%srepeat %s %s," % (ind, what, ident()))
+        elif kind in ("obj", "listobj") and earlier:
+            t = rng.choice(earlier)
+            if t not in used:
+                used.add(t)
+                lines.append("%s%s%s," % (ind, "repeat " if kind == "listobj" else "", t))
+        elif kind == "inline" and depth < 2:
+            nm = "In" + ident().capitalize() + str(rng.randint(0, 99))
+            lines.append("%s%s%s {\n%s%s}," % (ind, rng.choice(["", "repeat "]), nm, rand_fields(rng, earlier, depth + 1, False) or (ind + "    u8 pad0,\n"), ind))
+    if is_root and earlier and rng.random() < 0.7:
+        key = ident()
+        kty = rng.choice(["u8", "u16", "u32"])
+        lines.append("%s%s %s," % (ind, kty, key))
+        with_len = rng.random() < 0.6
+        if with_len:
+            lines.append("%s%s %s @lengthOf(Body)," % (ind, rng.choice(["u16", "u32"]), ident()))
+        pairs = []
+        ks = rng.sample(range(0, 200), min(len(earlier), 4) + 1)
+        for i, t in enumerate(rng.sample(earlier, min(len(earlier), 4))):
+            if i == 0 and rng.random() < 0.5:
+                pairs.append("%s    [%d, %d] : %s," % (ind, ks[i], ks[-1], t))
+            else:
+                pairs.append("%s    %d : %s," % (ind, ks[i], t))
+        lines.append("%smatch %s as Body {\n%s\n%s}," % (ind, key, "\n".join(pairs), ind))
+        if rng.random() < 0.5:
+            lines.append('%s%s %s @calculatedFrom("CRC32"),' % (ind, rng.choice(["u16", "u32"]), ident()))
+    return "".join(l + "\n" for l in lines)
